@@ -10,3 +10,4 @@ import Sessions.Proofs.Local.All
 import Sessions.Props
 import Sessions.Proofs.More.All
 import Sessions.Proofs.Global.All
+import Sessions.Proofs.Cookie18
